@@ -11,18 +11,18 @@ ACTIVE = {VM + 'active_fiber', VM + 'active_fiber_mut'}
 def run(rep):
     for wn in ('dev', 'rel'):
         w = rep.world(wn)
-        f1(rep, w, wn)
+        rep.guard(f1, rep, w, wn)
     w = rep.world('dev')
-    f2(rep, w)
-    f3(rep, w)
-    f4(rep, w)
-    f5(rep, w)
+    rep.guard(f2, rep, w)
+    rep.guard(f3, rep, w)
+    rep.guard(f4, rep, w)
+    rep.guard(f5, rep, w)
     import c06
-    c06.s5(rep, w)   # a yield / switch must not close the suspended fiber's upvalues (its slots stay live)
-    c06.s6(rep, w)   # a finishing fiber closes the upvalues of its body frame before the frame goes
-    c06.s1(rep, w)   # ... and the closer itself is unconditional
+    rep.guard(c06.s5, rep, w)   # a yield / switch must not close the suspended fiber's upvalues (its slots stay live)
+    rep.guard(c06.s6, rep, w)   # a finishing fiber closes the upvalues of its body frame before the frame goes
+    rep.guard(c06.s1, rep, w)   # ... and the closer itself is unconditional
     import c08
-    c08.x3(rep, w)   # a finishing fiber drops its own handlers, not those of the fiber it returns to
+    rep.guard(c08.x3, rep, w)   # a finishing fiber drops its own handlers, not those of the fiber it returns to
 
 
 def value_key(paths):
